@@ -565,8 +565,185 @@ pub fn gen_faults(seed: u64, tier: &str) -> Vec<String> {
     out
 }
 
+/// single-edit mutant of a tree
+fn mutate(t: &RefTree, rng: &mut Rng) -> RefTree {
+    fn paths(t: &RefTree, cur: &mut Vec<usize>, out: &mut Vec<Vec<usize>>) {
+        out.push(cur.clone());
+        if let RefTree::Node(_, cs) = t {
+            for (i, c) in cs.iter().enumerate() {
+                cur.push(i);
+                paths(c, cur, out);
+                cur.pop();
+            }
+        }
+    }
+    fn edit(t: &RefTree, path: &[usize], rng: &mut Rng) -> RefTree {
+        match (t, path) {
+            (RefTree::Tok(k, s), []) => {
+                if static_kind(*k) || rng.chance(1, 3) {
+                    // change the kind (to an interned kind, keeping the text)
+                    let nk = if *k == 10 { 11 } else { 10 };
+                    RefTree::Tok(nk, s.clone())
+                } else {
+                    let mut s2 = s.clone();
+                    if s2.is_empty() || rng.chance(1, 2) { s2.push('x') } else { s2.pop(); }
+                    RefTree::Tok(*k, s2)
+                }
+            }
+            (RefTree::Node(k, cs), []) => {
+                let mut cs2 = cs.clone();
+                match rng.below(4) {
+                    0 => return RefTree::Node((*k + 1) % 4, cs2),
+                    1 => cs2.insert(rng.below(cs.len() + 1), random_token(rng)),
+                    2 if !cs2.is_empty() => {
+                        cs2.remove(rng.below(cs.len()));
+                    }
+                    3 if cs2.len() >= 2 => {
+                        let i = rng.below(cs.len() - 1);
+                        cs2.swap(i, i + 1);
+                    }
+                    _ => cs2.push(RefTree::Node(3, vec![])),
+                }
+                RefTree::Node(*k, cs2)
+            }
+            (RefTree::Node(k, cs), [i, rest @ ..]) => {
+                let mut cs2 = cs.clone();
+                cs2[*i] = edit(&cs[*i], rest, rng);
+                RefTree::Node(*k, cs2)
+            }
+            (t, _) => t.clone(),
+        }
+    }
+    let mut ps = vec![];
+    paths(t, &mut vec![], &mut ps);
+    let p = rng.pick(&ps).clone();
+    edit(t, &p, rng)
+}
+
+fn node_paths(t: &RefTree, cur: &mut Vec<usize>, out: &mut Vec<(Vec<usize>, usize)>) {
+    if let RefTree::Node(_, cs) = t {
+        out.push((cur.clone(), cs.len()));
+        for (i, c) in cs.iter().enumerate() {
+            cur.push(i);
+            node_paths(c, cur, out);
+            cur.pop();
+        }
+    }
+}
+
+fn gpath(root: usize, p: &[usize]) -> String {
+    let mut s = format!("g{}", root);
+    for i in p {
+        s.push_str(&format!(".{}", i));
+    }
+    s
+}
+
+/// C15: (tree, same tree by another route) and (tree, single-edit mutant) pairs; iterator op mixes
+pub fn gen_greeneq(seed: u64, tier: &str) -> Vec<String> {
+    let mut rng = Rng::new(seed ^ 0xC15);
+    let mut out = vec![];
+    header(&mut out);
+    let bes: Vec<&str> = backends().into_iter().filter(|b| !b.ends_with("ref")).collect();
+    let n = if tier == "thorough" { 6000 } else { 500 };
+    let masks: [u32; 4] = [u32::MAX, u32::MAX, 3, 0];
+    for case in 0..n {
+        out.push(format!("cfg mask {}", masks[case % masks.len()]));
+        out.push(format!("case {}", case));
+        out.push(format!("cache {}", bes[case % bes.len()]));
+        let mut pool = vec![];
+        let (d, w) = (1 + rng.below(4), 1 + rng.below(if case % 7 == 0 { 9 } else { 4 }));
+        let t = random_tree(&mut rng, d, w, &mut pool);
+        let build = |t: &RefTree, out: &mut Vec<String>, rng: &mut Rng| {
+            out.push("builder c0".into());
+            emit_tree(t, out, rng);
+            out.push("finish".into());
+        };
+        build(&t, &mut out, &mut rng); // g0
+        build(&t, &mut out, &mut rng); // g1: shared cache
+        out.push("recache c0".into());
+        build(&t, &mut out, &mut rng); // g2: fresh cache, same interner
+        let m = mutate(&t, &mut rng);
+        build(&m, &mut out, &mut rng); // g3: single-edit mutant
+        // g4: bottom-up through GreenNode::new — rebuild one inner node, then the spine above it
+        let mut nps = vec![];
+        node_paths(&t, &mut vec![], &mut nps);
+        let (p, _) = rng.pick(&nps).clone();
+        let mut next = 4usize;
+        // rebuild node at p from its own children
+        let kind_at = |t: &RefTree, p: &[usize]| -> (u32, usize) {
+            let mut cur = t;
+            for i in p {
+                if let RefTree::Node(_, cs) = cur {
+                    cur = &cs[*i];
+                }
+            }
+            match cur {
+                RefTree::Node(k, cs) => (*k, cs.len()),
+                RefTree::Tok(k, _) => (*k, 0),
+            }
+        };
+        let (k, nc) = kind_at(&t, &p);
+        let refs: Vec<String> = (0..nc).map(|i| { let mut q = p.clone(); q.push(i); gpath(0, &q) }).collect();
+        out.push(format!("gnew {} {}", k, refs.join(" ")).trim_end().to_string());
+        let mut cur_new = next;
+        next += 1;
+        let mut q = p.clone();
+        while let Some(last) = q.pop() {
+            let (k, nc) = kind_at(&t, &q);
+            let refs: Vec<String> = (0..nc)
+                .map(|i| if i == last { format!("g{}", cur_new) } else { let mut r = q.clone(); r.push(i); gpath(0, &r) })
+                .collect();
+            out.push(format!("gnew {} {}", k, refs.join(" ")));
+            cur_new = next;
+            next += 1;
+        }
+        for (a, b) in [(0, 1), (0, 2), (1, 2), (0, 3), (2, 3), (0, cur_new), (3, cur_new)] {
+            out.push(format!("geq g{} g{}", a, b));
+        }
+        for g in [0, 1, 2, 3, cur_new] {
+            out.push(format!("ghash g{}", g));
+            out.push(format!("heads g{}", g));
+        }
+        // sub-element comparisons and token hashes
+        for _ in 0..3 {
+            let (p1, n1) = rng.pick(&nps).clone();
+            let mut q1 = p1.clone();
+            if n1 > 0 {
+                q1.push(rng.below(n1));
+            }
+            out.push(format!("geq {} {}", gpath(0, &q1), gpath(2, &q1)));
+            out.push(format!("ghash {}", gpath(0, &q1)));
+            let (p2, _) = rng.pick(&nps).clone();
+            out.push(format!("geq {} {}", gpath(0, &q1), gpath(1, &p2)));
+        }
+        // iterator op mixes
+        for _ in 0..4 {
+            let (p1, n1) = rng.pick(&nps).clone();
+            let mut ops = vec![];
+            let len = 1 + rng.below(8);
+            for _ in 0..len {
+                let op = match rng.below(8) {
+                    0 | 1 => "next".to_string(),
+                    2 => "next_back".to_string(),
+                    3 => format!("nth:{}", rng.below(n1 + 2)),
+                    4 => format!("nth_back:{}", rng.below(n1 + 2)),
+                    5 => "len".to_string(),
+                    _ => "size_hint".to_string(),
+                };
+                ops.push(op);
+            }
+            ops.push(rng.pick(&["count", "last", "fold", "rfold", "len"]).to_string());
+            out.push(format!("iter {} {}", gpath(0, &p1), ops.join(" ")));
+        }
+    }
+    out.push(format!("cfg mask {}", u32::MAX));
+    out
+}
+
 pub fn generate(what: &str, seed: u64, tier: &str) -> Vec<String> {
     match what {
+        "greeneq" => gen_greeneq(seed, tier),
         "faults" => gen_faults(seed, tier),
         "checkpoints" => gen_checkpoints(seed, tier),
         "build" => gen_build(seed, tier),
